@@ -15,10 +15,11 @@ Lemma in_bools (b : bool) : In b [false; true].
 Proof. destruct b; simpl; auto. Qed.
 
 Lemma in_all_cells sv ph sk va :
-  0 <= ph < 13 -> 0 <= va < 4 -> In (sv, ph, sk, va) all_cells.
+  0 <= ph < Z.of_nat (nphases sv) -> 0 <= va < 4 -> In (sv, ph, sk, va) all_cells.
 Proof.
-  intros Hp Hv. unfold all_cells.
-  repeat (apply in_prod); try apply in_bools; apply in_zrange; simpl; lia.
+  intros Hp Hv. unfold all_cells. apply in_or_app.
+  destruct sv; [right|left]; unfold cells_of;
+    repeat (apply in_prod); try apply in_bools; try (left; reflexivity); apply in_zrange; simpl in *; lia.
 Qed.
 
 Lemma row_all_spec p : forall lw l t0 i,
@@ -36,7 +37,7 @@ Qed.
 
 Lemma table_all_spec rowf p :
   table_all rowf p = true ->
-  forall sv ph sk va t, 0 <= ph < 13 -> 0 <= va < 4 -> 0 <= t < 256 ->
+  forall sv ph sk va t, 0 <= ph < Z.of_nat (nphases sv) -> 0 <= va < 4 -> 0 <= t < 256 ->
     p sv ph sk va t (lookup rowf sv ph sk 0 t) (lookup rowf sv ph sk va t) = true.
 Proof.
   intros H sv ph sk va t Hp Hv Ht. unfold table_all in H. rewrite forallb_forall in H.
@@ -53,6 +54,7 @@ Lemma tab_prekex : table_all gate_row p_prekex = true. Proof. vm_compute. reflex
 Lemma tab_preauth : table_all gate_row p_preauth = true. Proof. vm_compute. reflexivity. Qed.
 Lemma tab_role : table_all gate_row p_role = true. Proof. vm_compute. reflexivity. Qed.
 Lemma tab_strict : table_all gate_row p_strict = true. Proof. vm_compute. reflexivity. Qed.
+Lemma tab_between : table_all gate_row p_between = true. Proof. vm_compute. reflexivity. Qed.
 Lemma tab_stale : table_all gate_row p_stale = true. Proof. vm_compute. reflexivity. Qed.
 Lemma tab_postauth : table_all gate_row p_postauth = true. Proof. vm_compute. reflexivity. Qed.
 Lemma tab_unassigned : table_all gate_row p_unassigned = true. Proof. vm_compute. reflexivity. Qed.
@@ -64,7 +66,7 @@ Proof. destruct a, b; simpl; split; intros H; try reflexivity; try discriminate.
 
 Section TableFacts.
   Variables (sv : bool) (ph : Z) (sk : bool) (va t : Z).
-  Hypothesis Hph : 0 <= ph < 13.
+  Hypothesis Hph : 0 <= ph < Z.of_nat (nphases sv).
   Hypothesis Hva : 0 <= va < 4.
   Hypothesis Ht : 0 <= t < 256.
   Let v := lookup gate_row sv ph sk va t.
@@ -95,6 +97,12 @@ Section TableFacts.
     fold v in H. rewrite Hp in H.
     assert (E1 : (60 <=? t) = true) by (apply Z.leb_le; lia). assert (E2 : (t <=? 79) = true) by (apply Z.leb_le; lia).
     rewrite E1, E2 in H. simpl in H. apply verdict_eqb_spec. exact H.
+  Qed.
+
+  Lemma fact_between : between_phase sv ph = true -> t = 52 -> v = VF.
+  Proof.
+    intros Hp Ht52. pose proof (table_all_spec _ _ tab_between sv ph sk va t Hph Hva Ht) as H. unfold p_between in H.
+    fold v in H. rewrite Hp in H. subst t. simpl in H. apply verdict_eqb_spec. exact H.
   Qed.
 
   Lemma fact_role : foreign_to sv t = true -> v <> VH.
